@@ -14,7 +14,7 @@ import (
 var loadPatterns = []string{"./x/...", "./types/...", "./app/..."}
 
 func startWatchdog() {
-	secs := 900
+	secs := 3600 // a changed tree with several failing obligations walks the whole escalation ladder (10+30+120 s per phase)
 	if v := os.Getenv("GOVC_WATCHDOG"); v != "" {
 		fmt.Sscanf(v, "%d", &secs)
 	}
